@@ -74,9 +74,10 @@ deriving Repr, Inhabited
 /-- one iteration of `_reject_pseudo_header_fields` -/
 def pseudoStep (st : PseudoSt) (h : Header) : Option PseudoSt :=
   if h.name.startsWith [58] then
-    if st.seen.contains h.name then none
+    -- names are remembered as bytes: b':path' and ':path' are the same field on the wire
+    if st.seen.contains (HStr.b h.name.bs) then none
     else
-      let st := { st with seen := st.seen ++ [h.name] }
+      let st := { st with seen := st.seen ++ [HStr.b h.name.bs] }
       if st.seenRegular then none
       else if !inSet h.name ALLOWED_PSEUDO_HEADER_FIELDS_b ALLOWED_PSEUDO_HEADER_FIELDS_s then none
       else if h.name.isLit (strBytes ":method") then some { st with method := some h.value.toBytes }
